@@ -244,6 +244,19 @@ std::string random_material_fen(std::mt19937_64& rng, int kind)
     return random_class_fen(CLASSES[(kind % 2) ? int(rng() % ncls) : (ncls - 1 - int(rng() % 8))], rng() % 2, rng);
 }
 
+// the k-th request: class k/2 of CLASSES, strong side white for even k; "END" beyond the list (callers loop until then)
+std::string class_fen_by_index(std::mt19937_64& rng, int k)
+{
+    const int ncls = int(sizeof(CLASSES) / sizeof(CLASSES[0]));
+    if (k / 2 >= ncls) return "END";
+    for (int t = 0; t < 20; ++t)
+    {
+        std::string f = random_class_fen(CLASSES[k / 2], k % 2 == 0, rng, t % 2 == 1);
+        if (!f.empty()) return f;
+    }
+    return "";
+}
+
 static PositionScorer& long_lived()
 {
     static PositionScorer* s = new PositionScorer();
